@@ -301,3 +301,114 @@ Definition sel_ok (i : sel_in) (o : sel_out) : bool :=
   | _ => false
   end.
 Definition sel_judge := judge sel_model sel_oeqb sel_ok (fun _ => 0%N).
+
+(* ---------- part out: execute.Plugin.Outcome in the Filter state ----------
+   input: the oracles' configuration as far as the builder sees it (hash table, ZeroHash id, BatchGasLimit of the
+   offchain config in g_max_gas, estimator and codec parameters; g_nonces and g_max_size are not used), fChain of the
+   destination, the nonce observations of the attributed observations (one map per oracle), and the pending commit
+   reports of the previous (GetMessages) outcome in the order of its encoding.
+   What the plugin SHOULD hand to report.NewBuilder: the nonces agreed by f(dest)+1 oracles, maxReportLength
+   (1 MiB, execute/factory.go), the offchain config's BatchGasLimit.
+   output: error, or (Report.ChainReports, PendingCommitReports) of the decoded outcome. *)
+Definition plugin_max_report : N := 1048576.
+Definition out_in := (cfg * N * list nmap * list cdata)%type.
+Definition out_out := res (list creport * list cdata).
+
+Definition triple_eqb (a b : (N * N) * N) : bool :=
+  N.eqb (fst (fst a)) (fst (fst b)) && N.eqb (snd (fst a)) (snd (fst b)) && N.eqb (snd a) (snd b).
+Definition votes (t : (N * N) * N) (obs : list nmap) : N :=
+  N.of_nat (length (filter (fun m => existsb (triple_eqb t) m) obs)).
+(* mergeNonceObservations: a (source, sender, nonce) triple is valid when more than f(dest) oracles report it *)
+Definition agreed_nonces (f : N) (obs : list nmap) : nmap :=
+  fold_left (fun acc t => if N.ltb f (votes t obs) && negb (existsb (triple_eqb t) acc) then acc ++ [t] else acc)
+            (concat obs) [].
+
+(* Outcome.Encode: chain reports stably sorted by source chain, pending reports by (source chain, range start) *)
+Definition sort_reports (rs : list creport) : list creport := sort_by (fun a b => N.leb (r_src a) (r_src b)) rs.
+Definition cd_le (a b : cdata) : bool :=
+  if N.eqb (c_src a) (c_src b) then N.leb (c_start a) (c_start b) else N.ltb (c_src a) (c_src b).
+Definition sort_pending (cs : list cdata) : list cdata := sort_by cd_le cs.
+
+Definition out_cfg (i : out_in) : cfg :=
+  let '(g, f, obs, _) := i in
+  mkCfg (g_table g) (g_zero g) (agreed_nonces f obs) plugin_max_report (g_max_gas g) (g_tga g) (g_tgb g) (g_base g) (g_bad g).
+
+Definition out_model (i : out_in) : out_out :=
+  let g := out_cfg i in
+  let cds := snd i in
+  let h := thash (mk_htable (g_table g)) in
+  match select_report h (g_zero g) lhash (codec_size g) (tgas g) (g_nonces g) (g_max_size g) (g_max_gas g) cds with
+  | Ok (rs, pend) => Ok (sort_reports rs, sort_pending pend)
+  | Err => Err | Panic => Panic | Spin => Spin
+  end.
+Definition out_oeqb : out_out -> out_out -> bool :=
+  res_eqb (pair_eqb (list_eqb creport_eqb) (list_eqb cdata_eqb)).
+
+(* the executable property on the decoded outcome.  Chain reports are matched to the pending commit reports in order
+   (both are in processing order: the previous outcome is encoded sorted by chain and range start): a chain report
+   belongs to the first not yet passed commit report of its chain that holds its first message.  Returns the
+   pending list the outcome must show. *)
+Section OutOk.
+  Variable g : cfg.
+  Variable h : N -> N -> N.
+  Definition owns (cd : cdata) (r : creport) : bool :=
+    N.eqb (c_src cd) (r_src r) &&
+    match r_msgs r with m :: _ => existsb (msg_eqb m) (c_msgs cd) | [] => false end.
+  Definition still_pending (cd : cdata) : list cdata :=
+    match c_msgs cd with
+    | [] => [cd]
+    | _ => if Nat.ltb (length (c_exec cd)) (length (c_msgs cd)) then [cd] else []
+    end.
+  Fixpoint out_walk (size gas : N) (cds : list cdata) (rs : list creport) : option (list cdata) :=
+    match cds with
+    | [] => match rs with [] => Some [] | _ => None end       (* a chain report of no pending commit report *)
+    | cd :: cds' =>
+        match rs with
+        | r :: rs' =>
+            if owns cd r then
+              if reverify h r (c_root cd) && root_ok g h cd &&
+                 sel_match cd (c_msgs cd) (c_td cd) (r_msgs r) (r_td r)
+              then match codec_size g r with
+                   | Some sz =>
+                       let size1 := (size + sz)%N in
+                       let gas1 := (gas + fold_left (fun a m => a + m_gas m) (r_msgs r) 0 +
+                                    tgas g (N.of_nat (length (r_msgs r))))%N in
+                       if N.leb size1 (g_max_size g) && N.leb gas1 (g_max_gas g)
+                       then match out_walk size1 gas1 cds' rs' with
+                            | Some p => Some (still_pending (set_exec cd (sortN (c_exec cd ++ map m_seq (r_msgs r)))) ++ p)
+                            | None => None
+                            end
+                       else None
+                   | None => None
+                   end
+              else None
+            else match out_walk size gas cds' rs with Some p => Some (still_pending cd ++ p) | None => None end
+        | [] => match out_walk size gas cds' [] with Some p => Some (still_pending cd ++ p) | None => None end
+        end
+    end.
+End OutOk.
+
+Definition out_ok (i : out_in) (o : out_out) : bool :=
+  let g := out_cfg i in
+  let h := thash (mk_htable (g_table g)) in
+  match o with
+  | Ok (rs, pend) =>
+      match out_walk g h 0 0 (snd i) rs with
+      | Some p => list_eqb cdata_eqb (sort_pending p) pend
+      | None => false
+      end
+  | Err => true           (* no outcome: nothing is reported *)
+  | _ => false
+  end.
+(* the nonce clause alone, from the AGREED on-chain nonces, over the chain reports in outcome order *)
+Definition out_nonce_ok (i : out_in) (o : out_out) : bool :=
+  match o with
+  | Ok (rs, _) => nonce_ok (out_cfg i) [] rs
+  | _ => true
+  end.
+Definition out_known (i : out_in) : N :=
+  let g := out_cfg i in
+  if known_run g (thash (mk_htable (g_table g))) b_init (snd i) then 1%N else 0%N.
+Definition out_judge (cs : list (out_in * out_out)) : list (N * N) :=
+  judge out_model out_oeqb out_ok (fun _ => 0%N) cs ++
+  judge (fun _ : out_in => @Err (list creport * list cdata)) (fun _ _ => true) out_nonce_ok out_known cs.
